@@ -4,7 +4,7 @@ import ast
 import re
 
 from sa.helpers import (the_return, guard_is, validated, unlicensed, mkflow, spec, code, one, calls, bind_call, param_env,
-                        fmt, atom_of, unparse, walk_no_nested)
+                        fmt, atom_of, unparse, walk_no_nested, unalloc)
 from sa.index import AnalysisError, ClassInfo
 from sa.algebra import RF, Slice, dotted
 
@@ -40,6 +40,65 @@ CACHES = [(CA + 'opacitycache.py::OpacityCache', 'opacity_dict', 'load_opacity')
           (CA + 'ciaacache.py::CIACache', 'cia_dict', 'load_cia')]
 
 
+def _file_dicts(fl):
+    """the values that stand for the opened file / unpickled dictionary: what is stored in self._spec_dict, and the
+    attribute itself"""
+    out = [spec(fl, 'self._spec_dict')]
+    for e in fl.of('store'):
+        if fmt(fl, e.target) == 'self._spec_dict' and e.value is not None and not any(fl.tab.equal(e.value, d) for d in out):
+            out.append(e.value)
+    if len(out) == 1:
+        raise AnalysisError('the file is not kept in self._spec_dict')
+    return out
+
+
+_PASS_THROUGH = ('fn:allocate_as_shared', 'fn:astype')
+
+
+def _entries_in(fl, rf, D):
+    """[(factor RF as it appears in rf, key text)] for the atoms of rf that are an entry `file[key]` of the file,
+    possibly passed through allocate_as_shared / astype (same values)"""
+    out = []
+    for a in sorted(rf.atoms()):
+        at = fl.tab.atoms[a]
+        inner = at
+        while inner is not None and inner.head in ('call', 'mcall') and inner.extra and inner.extra[0] in _PASS_THROUGH \
+                and inner.args and isinstance(inner.args[0], RF):
+            inner = atom_of(fl, inner.args[0])
+        if inner is not None and inner.head == 'idx' and len(inner.args) == 2 and isinstance(inner.args[0], RF) and \
+                any(fl.tab.equal(inner.args[0], d) for d in D):
+            ka = atom_of(fl, inner.args[1])
+            if ka is not None and ka.head == 'const':
+                from sa.algebra import RF as _RF, p_atom
+                out.append((_RF(fl.tab, p_atom(a)), ka.args[0]))
+    return out
+
+
+def _declared_unit_of(fl, rf, D):
+    """rf is file['p'].attrs['units'] for one of the values D that stand for the file"""
+    a = atom_of(fl, rf)
+    if a is None or a.head != 'idx' or fmt(fl, a.args[1]) != "'units'":
+        return False
+    b = atom_of(fl, a.args[0])
+    if b is None or b.head != 'getattr' or b.args[1] != 'attrs':
+        return False
+    ent = _entries_in(fl, b.args[0], D)
+    return len(ent) == 1 and ent[0][1] == "'p'" and fl.tab.equal(ent[0][0], b.args[0])
+
+
+def _only_keyerror(try_node, ret_node):
+    """`try: return <item>` whose handlers catch KeyError only and do not leave the function: the statements after the
+    `try` run exactly when the key is missing"""
+    if len(try_node.body) != 1 or try_node.body[0] is not ret_node or try_node.orelse or try_node.finalbody:
+        return False
+    for h in try_node.handlers:
+        if h.type is None or unparse(h.type) != 'KeyError':
+            return False
+        if any(isinstance(x, (ast.Return, ast.Raise)) for st in h.body for x in ast.walk(st)):
+            return False
+    return bool(try_node.handlers)
+
+
 def run(ix, R):
     _run(ix, R)
     from rules.common import memo_obligation
@@ -57,22 +116,23 @@ def _run(ix, R):
             st = [e for e in fl.of('store') if fmt(fl, e.target) == 'self._pressure_grid']
             s = one(st, 'pressure grid store')
             why = []
+            D = _file_dicts(fl) if pexpr else []
+            ent = _entries_in(fl, s.value, D) if pexpr else []
+            if pexpr and len(ent) != 1:
+                raise AnalysisError('the pressure grid is not computed from one entry of the file: %s' % fmt(fl, s.value))
+            if pexpr and ent[0][1] != "'p'":
+                why.append('pressure read from the entry %s of the file' % ent[0][1])
             if kind == 'bar':
-                c = None
-                # value = X * 1e5 with X not mentioning another scale
-                for a in s.value.atoms():
-                    pass
                 base = s.value / 100000
                 if base.const() is not None or any(fl.tab.atoms[a].head == 'const' for a in base.atoms()):
                     why.append('pressure = %s' % fmt(fl, s.value))
                 cst = [m for m in list(base.num.values()) + list(base.den.values())]
                 if any(v != 1 for v in cst):
                     why.append('pressure scale is not 1e5: %s' % fmt(fl, s.value))
-                if pexpr and not fl.tab.equal(base, spec(fl, pexpr)):
-                    why.append('pressure read from %s' % fmt(fl, base))
+                if pexpr and not why and not fl.tab.equal(base, ent[0][0]):
+                    why.append('pressure = %s, not the file pressures times 1e5' % fmt(fl, s.value))
             else:
-                unit = spec(fl, "self._spec_dict['p'].attrs['units']")
-                base = spec(fl, pexpr)
+                base = ent[0][0]
                 # value = (file pressures) x (a factor that every assignment computes as Unit(declared unit).to(Pa))
                 ratio = s.value / base
                 ra = atom_of(fl, ratio)
@@ -92,7 +152,7 @@ def _run(ix, R):
                         if okv:
                             ua = atom_of(fl, va.args[0])
                             okv = ua is not None and ua.head == 'call' and ua.extra[0].endswith('Unit') and ua.args and \
-                                fl.tab.equal(ua.args[0], unit)
+                                _declared_unit_of(fl, ua.args[0], D)
                         if not okv:
                             why.append('conversion factor is %s, not Unit(declared unit).to(Pa)' % fmt(fl, v))
             R.check('1.pressure', 'SIB', site, stmt, not why, key='; '.join(why), detail='; '.join(why), loc=f.loc(s.node))
@@ -131,12 +191,22 @@ else:
             f = ix.func(site)
             fl = mkflow(ix, site)
             bad = []
+            D = _file_dicts(fl)
             for attr, key in keys.items():
                 es = [e for e in fl.of('store') if fmt(fl, e.target) == attr]
-                if not es or not all("self._spec_dict[%s]" % key in unparse(e.node.value) for e in es):
-                    bad.append('%s <- %s' % (attr, [unparse(e.node.value)[:60] for e in es]))
-                elif any(isinstance(e.node.value, ast.BinOp) for e in es):
-                    bad.append('%s is rescaled: %s' % (attr, [unparse(e.node.value)[:60] for e in es]))
+                if not es:
+                    raise AnalysisError('%s is not stored' % attr)
+                for e in es:
+                    ent = _entries_in(fl, e.value, D)
+                    if len(ent) != 1:
+                        raise AnalysisError('%s is not computed from one entry of the file: %s' % (attr, fmt(fl, e.value)))
+                    if ent[0][1] != key:
+                        bad.append('%s <- the entry %s of the file' % (attr, ent[0][1]))
+                    elif not fl.tab.equal(e.value, ent[0][0]):
+                        c_ = (e.value / ent[0][0]).const()
+                        if c_ is None:
+                            raise AnalysisError('%s = %s' % (attr, fmt(fl, e.value)))
+                        bad.append('%s is rescaled: %s' % (attr, fmt(fl, e.value)))
             R.check('1.keys', 'TAB', site, 'grids, table and weights are read from their own keys without rescaling',
                     not bad, key='; '.join(bad), detail='; '.join(bad), loc=f.loc())
     # ---- 2. cache typestate
@@ -151,14 +221,30 @@ else:
             item = spec(fl, 'self.%s[k]' % dct, pe)
             if not rets or not all(fl.tab.equal(r.value, item) for r in rets):
                 why.append('returns %s' % [fmt(fl, r.value) for r in rets])
-            hit = [r for r in rets if r.guards and r.guards[0].positive and
-                   fl.tab.equal(r.guards[0].rf, spec(fl, 'k in self.%s' % dct, pe)) and len(r.guards) == 1]
-            if len(hit) != 1:
-                why.append('no direct hit path')
+            member = spec(fl, 'k in self.%s' % dct, pe)
             ld = [e for e in calls(fl, loader)]
-            if len(ld) != 1 or not ld[0].guards or ld[0].guards[0].positive:
+            if len(ld) > 1:
+                raise AnalysisError('%d calls of %s' % (len(ld), loader))
+            first = fl.events.index(ld[0]) if ld else len(fl.events)
+            before = [r for r in rets if fl.events.index(r) < first]
+            # the hit path, in either spelling: `if k in d: return d[k]`, or `try: return d[k]` / `except KeyError: <fall through>`
+            hit_if = [r for r in before if len(r.guards) == 1 and r.guards[0].positive and fl.tab.equal(r.guards[0].rf, member)]
+            hit_try = [r for r in before if not r.guards and r.trys and _only_keyerror(r.trys[-1], r.node)]
+            if len(hit_if) + len(hit_try) != 1:
+                odd = [r for r in before if r not in hit_if and r not in hit_try]
+                if odd and not all(r.guards and r.guards[0].rf is not None and fmt(fl, r.guards[0].rf) in ('False', 'True')
+                                   for r in odd):
+                    raise AnalysisError('the path that serves a stored object is not recognised: %s' % [
+                        [g.text() for g in r.guards] for r in odd])
+                why.append('no direct hit path')
+            if not ld:
+                why.append('%s() is never called: a molecule that is not loaded yet is not looked for' % loader)
+            elif hit_try and not hit_if:
+                if any(g.rf is not None and fl.tab.equal(g.rf, member) and g.positive for g in ld[0].guards):
+                    why.append('%s() is not confined to the miss path' % loader)
+            elif not ld[0].guards or ld[0].guards[0].positive or not fl.tab.equal(ld[0].guards[0].rf, member):
                 why.append('%s() is not confined to the miss path' % loader)
-            else:
+            if ld:
                 kw = ld[0].kw
                 flt = kw.get('molecule_filter') or kw.get('pair_filter')
                 if flt is None or not fl.tab.equal(flt, fl.tab.atom('tuple', (pe['k'],))):
@@ -413,21 +499,53 @@ def hitran(ix, R):
     site = H + '::HitranCiaGrid.sortTempSigma'
     with R.guard('6.hitran.key', 'PERM', site, 'sort key'):
         f = ix.func(site)
-        need(R, '6.hitran.key', 'PERM', site, 'the (T, sigma) list is sorted in place by temperature (element 0)', f,
-             ['self.Tsigma.sort(key=operator.itemgetter(0))'])
+        fl = mkflow(ix, site)
+        so = one([e for e in calls(fl, 'sort')], 'sort call')
+        if so.recv_rf is None or fmt(fl, so.recv_rf) != 'self.Tsigma':
+            raise AnalysisError('sorts %s' % (fmt(fl, so.recv_rf) if so.recv_rf is not None else unparse(so.node)))
+        key = so.kw.get('key')
+        ka = atom_of(fl, key) if key is not None else None
+        if ka is None or ka.head not in ('call', 'mcall') or not ka.extra or not ka.extra[0].endswith('itemgetter') or \
+                set(so.kw) - {'key'} or so.args:
+            raise AnalysisError('the sort key is not an item picker: %s' % unparse(so.node))
+        R.check('6.hitran.key', 'PERM', site, 'the (T, sigma) list is sorted in place by temperature (element 0)',
+                fl.tab.equal(key, spec(fl, 'operator.itemgetter(0)')) and not unlicensed(fl, so) and not so.loops,
+                key=unparse(so.node), detail=unparse(so.node), loc=f.loc(so.node))
     site = H + '::HitranCiaGrid.fill_temperature'
     with R.guard('6.hitran.fill', 'PERM', site, 'fill'):
         f = ix.func(site)
-        need(R, '6.hitran.fill', 'PERM', site,
-             'a missing temperature is added as zeros outside the tabulated range, else by linear interpolation between its '
-             'neighbours, and the list is re-sorted after each addition', f,
-             ['''
-if V_t < min(self.temperature) or V_t > max(self.temperature):
-    self.add_temperature(V_t, np.zeros_like(self.wn))
-else:
-    V_i = self.find_closest_temperature_index(V_t)
-    self.add_temperature(V_t, self.interp_linear_grid(V_t, *V_i))
-'''])
+        fl = mkflow(ix, site)
+        adds = calls(fl, 'add_temperature')
+        lp = one(fl.of('loop'), 'loop over the requested temperatures').loop
+        tt = fl.tab.atom('elem', (lp.iter_rf[0], lp.index))
+        # what is added for a temperature, as one guarded value over the add_temperature calls
+        from sa.helpers import resolve_guards, has_guard
+        outer_ = None
+        val = fl.tab.atom('const', ('NOTHING',))
+        for a_ in adds:
+            if len(a_.args) != 2 or a_.kw or not fl.tab.equal(a_.args[0], tt):
+                raise AnalysisError('add_temperature is not called with the missing temperature and one table: %s' % unparse(a_.node))
+            gs = [g for g in a_.guards if not g.early]
+            if any(g.rf is None for g in gs):
+                raise AnalysisError('add_temperature under a condition that is not followed')
+            v = a_.args[1]
+            for g in reversed(gs):
+                v = fl.tab.atom('guard', (g.rf, v, val) if g.positive else (g.rf, val, v))
+            val = v
+        outside = spec(fl, 't < min(self.temperature) or t > max(self.temperature)', {'t': tt})
+        why = []
+        for scen, want, what in ((True, spec(fl, 'np.zeros_like(self.wn)'), 'outside the tabulated range'),
+                                 (False, spec(fl, 'self.interp_linear_grid(t, *self.find_closest_temperature_index(t))', {'t': tt}),
+                                  'inside the tabulated range')):
+            got = resolve_guards(fl, val, lambda c: scen if fl.tab.equal(c, outside) else None)
+            got = unalloc(fl, got)
+            if has_guard(got) or fmt(fl, got) == 'NOTHING':
+                raise AnalysisError('what is added %s is not settled: %s' % (what, fmt(fl, got)[:200]))
+            if not fl.tab.equal(got, want):
+                why.append('%s the table added is %s' % (what, fmt(fl, got)[:160]))
+        R.check('6.hitran.fill', 'PERM', site,
+                'a missing temperature is added as zeros outside the tabulated range, else by linear interpolation between its '
+                'neighbours', not why, key='; '.join(why), detail='; '.join(why), loc=f.loc())
         fl = mkflow(ix, site)
         adds = calls(fl, 'add_temperature')
         sorts = [e for e in calls(fl, 'sortTempSigma') if e.loops]
